@@ -57,7 +57,25 @@ def gen_case(rng, tier, i):
         if fm_ > 0:      # field list dominated by a negative field: the maximum field is the largest |field|
             spec['fields'] = [[-fm_, 0.0, 0.0], [0.0, 0.0, 0.0], [round(0.5 * fm_, 6), 0.0, 0.0]]
             info['negfields'] = True
-    return dict(kind='random', spec=spec, info=info)
+    case = dict(kind='random', spec=spec, info=info)
+    if rng.random() < 0.25:
+        # every paraxial quantity is queried once, THEN the lens is edited through the public setters and queried again:
+        # the answers are those of the lens as it is now
+        K = len(spec['surfaces'])
+        edits = []
+        for _ in range(int(rng.integers(1, 3))):
+            k = int(rng.integers(1, K))
+            su = spec['surfaces'][k - 1]
+            kind = str(rng.choice(['index', 'radius', 'thickness']))
+            if kind == 'index' and k < K - 1 and su.get('medium') != 'mirror' and spec['surfaces'][k].get('medium') != 'mirror':
+                edits.append(['index', k, round(float(rng.uniform(1.3, 1.95)), 6)])
+            elif kind == 'radius' and su.get('radius', 'inf') != 'inf':
+                edits.append(['radius', k, round(float(su['radius']) * float(rng.uniform(0.7, 1.5)), 6)])
+            elif kind == 'thickness':
+                edits.append(['thickness', k, round(float(su['t']) * float(rng.uniform(0.5, 1.5)), 6)])
+        if edits:
+            case['edits'] = edits
+    return case
 
 
 def oracle_values(spec, dtype, asbuilt=()):
@@ -120,6 +138,28 @@ def check_case(case, rec):
         spec, info = case['spec'], case['info']
         lens = L.build(spec)
         rec.cls(*L.class_names(info))
+        if case.get('edits'):
+            import copy
+            rec.cls('edited-after-first-use')
+            par_ = lens.paraxial
+            with np.errstate(all='ignore'):
+                for q_ in ('f1', 'f2', 'F1', 'F2', 'P1', 'P2', 'EPL', 'EPD', 'XPL', 'XPD', 'FNO', 'magnification', 'invariant',
+                           'marginal_ray', 'chief_ray'):
+                    try:
+                        getattr(par_, q_)()
+                    except Exception:
+                        pass       # judged below, on the edited lens, where the query is made again
+            lens.trace_generic(0.0, 0.5, 0.0, 0.5, L.primary_wavelength(spec))
+            spec = copy.deepcopy(spec)
+            for kind_, k_, v_ in case['edits']:
+                su_ = spec['surfaces'][k_ - 1]
+                if kind_ == 'index':
+                    lens.set_index(v_, k_); su_['medium'] = {'n': v_}
+                elif kind_ == 'radius':
+                    lens.set_radius(v_, k_); su_['radius'] = v_
+                else:
+                    lens.set_thickness(v_, k_); su_['t'] = v_
+                rec.event('edits_applied')
         if info.get('negfields'):
             rec.cls('negative-dominant-fields')
     o64, P = oracle_values(spec, np.float64)
